@@ -435,6 +435,9 @@ func (g *Gen) allocRef(st *State, hint string) *Term {
 	r := g.fresh("new:"+hint, SInt)
 	g.assume(Gt(r, st.Clk))
 	st.Clk = r
+	if g.freshRefs != nil {
+		g.freshRefs[r] = true
+	}
 	return r
 }
 
@@ -449,6 +452,10 @@ func (g *Gen) zeroObj(st *State, r *Term, t types.Type) {
 }
 
 func (g *Gen) zeroElems(st *State, r *Term, elem types.Type) {
+	if g.freshRefs[r] {
+		g.quietEpoch = true
+		defer func() { g.quietEpoch = false }()
+	}
 	for _, lf := range leavesOf(elem) {
 		a := &Addr{Root: RElem, RootT: elem}
 		name := g.compName(a, lf)
